@@ -3,10 +3,13 @@ ID = "C04"
 LEVEL = "proof"
 fr = VerusUnit("c04_frontier", "c04_frontier", rlimit=60)
 al = VerusUnit("al_astar", "al_astar", rlimit=60)
-UNITS = [fr, al]
+APP = "routee-compass"
+tw = KaniUnit("c04_reverse_turn_wit", APP, modules=[dict(file=APP + "/src/app/compass/config/frontier_model/turn_restrictions/turn_restriction_model.rs", src="c04_reverse_turn_wit.rs")], harnesses=[])
+tw.native_witnesses = ["c04_wit_forward_search_avoids_the_restricted_turn", "c04_wit_reverse_search_avoids_the_restricted_turn"]
+UNITS = [fr, al, tw]
 EXPLANATION = ("every frontier model's valid_frontier and VehicleRestriction::valid extracted verbatim and verified (Verus; reals for the unit conversions, physical 0.1 % lemmas "
                "for distance and weight units); the driver invariant PERM of unit AL: every tree entry's edge passed valid_frontier with the expanded vertex' stored edge and state")
 NOT_DECIDED = ("RoadClassParser::read_query and VehicleParameters::from_query (serde_json); that a parent's stored edge is still the same when the route is read back "
-               "(turn restrictions are decided for the pair (edge stored for the parent at expansion time, edge)); reverse-direction turn pairs")
+               "(turn restrictions are decided for the pair (edge stored for the parent at expansion time, edge)); REVERSE searches: the pair is handed to the model in search order, not travel order -- a listed turn is not refused backwards (KNOWN FINDING C04-reverse-search-turn-pair-order, witness c04_wit_reverse_search_avoids_the_restricted_turn)")
 ASSUMPTIONS = ["A-REAL for VehicleRestriction::valid and the unit conversions", "inner / underlying frontier models are opaque (uninterpreted answer)",
                "trait-object dispatch (Arc<dyn FrontierModel>) replaced by direct calls on shim structs"]
